@@ -19,6 +19,7 @@ var jsonBodies = []string{
 	`{"n":5.5,"t":"b","u":"ünï©ødé"}`,
 	`{"t":"nokey"}`,
 	`{"n":8,"t":"v","bell":"ring\u0007ring","del":"a\u007fb","astral":"tag\udb40\udc01end","sub":{"p":"v\u000bt\u0001","q":{"r":"\u001f"}}}`,
+	`{"n":9,"t":"e","":{"x":1,"":0},"sub":{"":2,"p":3,"q":{"":{"r":4}}}}`, // the empty string is a legal property name
 	`{"n":6,"t":"c","big":9007199254740993,"dec":1.0000000000000000001,"sub":{"p":3,"q":{"r":12345678901234567890}}}`,
 }
 
@@ -194,6 +195,12 @@ func (g *Gen) Make(kind string) Op {
 		case 2:
 			o.Append, o.Body = true, []byte("+app"+g.uniq())
 			o.CasClass = g.casClass([]int{1, 6, 2, 1})
+		case 3:
+			if g.R.Chance(1, 2) {
+				o.BodyNil, o.AddOnly = true, g.R.Chance(1, 3) // a deletion through WriteCas, also down the insert path
+				break
+			}
+			o.Body = g.jsonBody()
 		default:
 			o.Body = g.jsonBody()
 		}
@@ -208,7 +215,7 @@ func (g *Gen) Make(kind string) Op {
 			o.CbExp = &e
 		}
 	case KIncr:
-		o.Amt, o.Def, o.Exp = uint64(1+g.R.Intn(9)), uint64(g.R.Intn(100)), g.exp()
+		o.Amt, o.Def, o.Exp = uint64(g.R.Intn(10)), uint64(g.R.Intn(100)), g.exp()
 	case KTouch, KGetTouch:
 		o.Exp = g.exp()
 	case KSetX:
@@ -347,7 +354,7 @@ func (g *Gen) Make(kind string) Op {
 	return o
 }
 
-var subdocPaths = []string{"gap.x", "gap.y.z", "n", "t", "newprop", "sub.p", "sub.q.r", "sub.newp", "sub.q.newr", "tags.x", "n.x", "missing.x", "deep.a.b.c", "deep.a.b.d", "sub", "bell", "del", "astral"}
+var subdocPaths = []string{"gap.x", "gap.y.z", "n", "t", "newprop", "sub.p", "sub.q.r", "sub.newp", "sub.q.newr", "tags.x", "n.x", "missing.x", "deep.a.b.c", "deep.a.b.d", "sub", "bell", "del", "astral", "sub.", ".x", "sub..p", "."}
 var subdocValues = []string{`9007199254740993`, `1`, `"str"`, `{"k":"v"}`, `[1,2]`, `true`, `{"p":9,"z":{"y":1}}`}
 
 // xblob builds the xattr blob handed to SetWithMeta/DeleteWithMeta. rosmar stores that blob verbatim and
@@ -479,6 +486,7 @@ func Variants() []Op {
 		add(Op{Kind: KWriteCas, Body: rb, Raw: true, CasClass: cc})
 		add(Op{Kind: KWriteCas, Body: jb, AddOnly: true, CasClass: cc})
 		add(Op{Kind: KWriteCas, Body: rb, AddOnly: true, Raw: true, CasClass: cc})
+		add(Op{Kind: KWriteCas, BodyNil: true, AddOnly: cc == CasBogus, CasClass: cc}) // a deletion through WriteCas (what Update(delete) issues), also down the insert path
 		add(Op{Kind: KWriteCas, Body: jb, AddOnly: true, Flags: int(sgbucket.Persist), CasClass: cc})
 		add(Op{Kind: KWriteCas, Body: jb, Flags: int(sgbucket.Indexable), CasClass: cc})
 		add(Op{Kind: KWriteCas, Body: []byte("+tail"), Append: true, CasClass: cc})
@@ -510,6 +518,7 @@ func Variants() []Op {
 		add(o)
 	}
 	add(Op{Kind: KIncr, Amt: 3, Def: 10})
+	add(Op{Kind: KIncr, Amt: 0, Def: 7, Exp: farExp + 11}) // "read the counter": still a write (creates it, sets the expiry, new CAS)
 	add(Op{Kind: KIncr, Amt: 1, Def: 0, Exp: farExp + 10})
 	add(Op{Kind: KTouch, Exp: farExp + 11})
 	add(Op{Kind: KTouch, Exp: maxRelExp})
